@@ -112,8 +112,11 @@ class WebBrowser(Application, discriminator="web-browser"):
             return False
 
         # get the IP address of the domain name via DNS
-        dns_client: DNSClient = self.software_manager.software.get("dns-client")
-        domain_exists = dns_client.check_domain_exists(target_domain=parsed_url.hostname)
+        dns_client: Optional[DNSClient] = self.software_manager.software.get("dns-client")
+        if dns_client is None:
+            # the DNS client has been uninstalled from this node: names cannot be resolved, literal addresses still work
+            self.sys_log.warning(f"{self.name}: No DNS client installed, {parsed_url.hostname} is treated as an address")
+        domain_exists = dns_client is not None and dns_client.check_domain_exists(target_domain=parsed_url.hostname)
 
         # if domain does not exist, the request fails
         if domain_exists:
